@@ -377,6 +377,10 @@ fn run_case(case: &Value, variation: u64, vbp: &Path, scratch: &Path) -> Vec<Pro
                         let md = t.get("metadata").and_then(|m| m.as_table()).cloned().unwrap_or_default();
                         if c("storeout") == "empty" { md.is_empty() } else { md.len() == 7 && md.get("written-by").and_then(|x| x.as_str()) == Some("vbp") }
                     }),
+                    ("launch.sbom.cdx.json", Some(b)) => {
+                        // (built from a cyclonedx_bom::Bom without a serial number through libcnb's conversion)
+                        serde_json::from_slice::<Value>(b).ok().is_some_and(|v| v["bomFormat"] == "CycloneDX" && v["components"][0]["name"] == "launch-component" && v.get("serialNumber").is_none())
+                    }
                     (n, Some(b)) => {
                         let (kind, f) = n.split_once(".sbom.").unwrap();
                         *b == format!("{{\"sbom\":\"{kind} {f}\"}}").into_bytes()
